@@ -25,6 +25,7 @@ ASSUMPTIONS = [
     "the centre of a sphere/cylinder is an index inside the box (the implementation addresses the centre voxel)",
     "difference of more than two masks is union minus intersection (documented definition)",
 ]
+EXHAUSTIVE = "every centre (336) of a 6x7x8 box x radii {1, 2.5, 4, 9}: hard spheres and cylinders (2 688 masks)"
 BUDGET = {"quick": {"examples": 3000, "seconds": 75}, "thorough": {"examples": 10000, "seconds": 480}}
 
 dim = st.one_of(st.integers(6, 48), st.integers(6, 16))
@@ -130,6 +131,14 @@ def corner_cases(tier):
            "masks": [{"dtype": "int64", "soft": False, "seed": 1, "p": 0.5}, {"dtype": "float64", "soft": False, "seed": 2, "p": 0.5}]}
     yield {"kind": "sphere", "sigma": 0.0, "outwards": True, "shape": [9, 14, 11], "center": [0, 13, 5], "radius": 4.5}
     yield {"kind": "ellipsoid", "sigma": 0.0, "outwards": True, "shape": [12, 16, 10], "center": [3, 8, 9], "radii": [3, 7, 2]}
+    if tier == "thorough":
+        # exhaustive: every centre of a 6x7x8 box x four radii, spheres and cylinders (cylinder heights 1, 4, 9)
+        for cx in range(6):
+            for cy in range(7):
+                for cz in range(8):
+                    for r in (1, 2.5, 4, 9):
+                        yield {"kind": "sphere", "sigma": 0.0, "outwards": True, "shape": [6, 7, 8], "center": [cx, cy, cz], "radius": r}
+                        yield {"kind": "cylinder", "sigma": 0.0, "outwards": True, "shape": [6, 7, 8], "center": [cx, cy, cz], "radius": r, "height": [1, 4, 9][(cx + cy + cz) % 3]}
 
 
 # ----------------------------------------------------------------------------------------------
